@@ -24,7 +24,9 @@
 (* entries).                                                               *)
 (*                                                                         *)
 (* Invariants: ReadsOK, NoNil, IterOK, IterRefines, LiveIndexed, InRange,  *)
-(* ShareOK, ResultOK; action properties DimFrame, KeepShared, NoNewShare.  *)
+(* ShareOK (the cells really shared contain the contract's `must` pairs    *)
+(* and otherwise only tainted zero positions), ResultOK; action property   *)
+(* DimFrame.                                                               *)
 (*                                                                         *)
 (* Case generation: with Emit every transition prints the history of calls *)
 (* (each call with the dense content, the lengths and the result the       *)
@@ -52,8 +54,8 @@ Objs == 1..MaxObj
 Iters == 1..NIter
 
 VARIABLES vals, index, sh, mit, ok, hist
-vars == <<n, content, cit, vals, index, sh, mit, ok, hist>>
-View == <<n, content, cit, vals, index, sh, mit, ok>>
+vars == <<n, content, cit, must, taint, vals, index, sh, mit, ok, hist>>
+View == <<n, content, cit, must, taint, vals, index, sh, mit, ok>>
 
 (* ------------------------------------------------------- map semantics *)
 Has(vs, i) == i \in DOMAIN vs
@@ -91,7 +93,11 @@ CommitM(o, nv, ni, S) ==
                               ELSE Through(S, o, nv, vals[oo])]
   /\ index' = [index EXCEPT ![o] = ni]
   /\ sh' = S
-Step(o, nn, nc, nv, ni, S) == CommitC(Objs, o, nn, nc, S) /\ CommitM(o, nv, ni, S)
+(* contract half + mechanism half of a step on object o *)
+ValueStep(o, nc, nv, ni, S)         == ValueStepC(Objs, o, nc) /\ CommitM(o, nv, ni, S)
+StructStep(o, nc, f, srt, nv, ni, S) == StructStepC(Objs, o, nc, f, srt) /\ CommitM(o, nv, ni, S)
+ObsStep(o, nv, ni, S)               == UNCHANGED <<n, content, must, taint>> /\ CommitM(o, nv, ni, S)
+ReplaceStep(o, nn, nc, nv, ni)      == ReplaceStepC(Objs, o, nn, nc) /\ CommitM(o, nv, ni, {})
 
 MitDead == [live |-> FALSE, o |-> 1, pos |-> Done, stale |-> FALSE, keys |-> {}]
 KillMits(its, objs) == [j \in DOMAIN its |-> IF its[j].live /\ its[j].o \in objs THEN MitDead ELSE its[j]]
@@ -117,6 +123,7 @@ Init ==
   /\ n = [o \in Objs |-> IF o = 1 THEN N0 ELSE -1]
   /\ content = [o \in Objs |-> IF o = 1 THEN [i \in Idx(N0) |-> 0] ELSE <<>>]
   /\ cit = [j \in Iters |-> IterDead]
+  /\ must = {} /\ taint = [o \in Objs |-> {}]
   /\ vals = [o \in Objs |-> <<>>]
   /\ index = [o \in Objs |-> {}]
   /\ sh = {}
@@ -129,15 +136,15 @@ Alive(o) == n[o] >= 0
 (* v.At(i).SetX(x): AT creates the cell and the index entry together *)
 Write(o, i, x) ==
   /\ "write" \in Ops /\ Alive(o) /\ i \in Idx(n[o]) /\ Rd(vals[o], i) # NilPtr
-  /\ Step(o, n[o], CWrite(content[o], i, x), Put(vals[o], i, x),
-          IF Has(vals[o], i) THEN index[o] ELSE index[o] \cup {i}, sh)
+  /\ ValueStep(o, CWrite(content[o], i, x), Put(vals[o], i, x),
+               IF Has(vals[o], i) THEN index[o] ELSE index[o] \cup {i}, sh)
   /\ UNCHANGED <<cit, mit>> /\ ok' = TRUE
   /\ Record([Ev("write", o) EXCEPT !.i = i, !.x = x])
 
 (* v.Reset(): every stored cell is zeroed, nothing is removed *)
 Reset(o) ==
   /\ "reset" \in Ops /\ Alive(o) /\ ~HasNil(vals[o])
-  /\ Step(o, n[o], CReset(content[o]), [k \in DOMAIN vals[o] |-> 0], index[o], sh)
+  /\ ValueStep(o, CReset(content[o]), [k \in DOMAIN vals[o] |-> 0], index[o], sh)
   /\ UNCHANGED <<cit, mit>> /\ ok' = TRUE
   /\ Record(Ev("reset", o))
 
@@ -153,7 +160,7 @@ Swap(o, i, j) ==
                             ELSE vs[k]]
          ni == IF SwapBug THEN index[o]
                ELSE index[o] \cup (IF Has(vs, j) THEN {i} ELSE {}) \cup (IF Has(vs, i) THEN {j} ELSE {})
-     IN Step(o, n[o], CSwap(content[o], i, j), nv, ni, Rename(sh, o, f, DOMAIN vs))
+     IN StructStep(o, CSwap(content[o], i, j), f, FALSE, nv, ni, Rename(sh, o, f, DOMAIN vs))
   /\ UNCHANGED <<cit, mit>> /\ ok' = TRUE
   /\ Record([Ev("swap", o) EXCEPT !.i = i, !.k = j])
 
@@ -164,7 +171,7 @@ Reverse(o) ==
          vs == vals[o]
          nv == [k \in {m - 1 - i : i \in DOMAIN vs} |-> vs[m - 1 - k]]
          f  == [k \in Idx(m) |-> m - 1 - k]
-     IN Step(o, m, CReverse(content[o], m), nv, DOMAIN nv, Rename(sh, o, f, DOMAIN vs))
+     IN StructStep(o, CReverse(content[o], m), f, FALSE, nv, DOMAIN nv, Rename(sh, o, f, DOMAIN vs))
   /\ mit' = MarkStale(o, index[o])
   /\ UNCHANGED cit /\ ok' = TRUE
   /\ Record(Ev("reverse", o))
@@ -194,8 +201,8 @@ Permute(o, pi) ==
   /\ "permute" \in Ops /\ Alive(o)
   /\ LET m == n[o]
          f == PermMap([k \in Idx(m) |-> k], pi, 0, m)
-     IN Step(o, m, CPermute(content[o], pi, m), PermVals(vals[o], pi, 0, m), Idx(m),
-             Rename(sh, o, f, DOMAIN vals[o]))
+     IN StructStep(o, CPermute(content[o], pi, m), CPermuteMap(pi, m), FALSE, PermVals(vals[o], pi, 0, m), Idx(m),
+                   Rename(sh, o, f, DOMAIN vals[o]))
   /\ mit' = MarkStale(o, index[o])
   /\ UNCHANGED cit /\ ok' = TRUE
   /\ Record([Ev("permute", o) EXCEPT !.p = pi])
@@ -215,7 +222,8 @@ Sort(o, rev) ==
          last(key) == CHOOSE t \in 1..L : keyOf(t) = key /\ \A t2 \in 1..L : keyOf(t2) = key => t2 <= t
          nv   == [key \in nk |-> srt[last(key)][2]]
          ren  == [k \in KeysOfSeq(srt) |-> keyOf(CHOOSE t \in 1..L : srt[t][1] = k)]
-     IN /\ Step(o, m, CSort(content[o], m, rev), nv, nk, Rename(sh, o, ren, DOMAIN ren))
+     IN /\ StructStep(o, CSort(content[o], m, rev), CSortMap(content[o], m, rev), TRUE, nv, nk,
+                      Rename(sh, o, ren, DOMAIN ren))
         /\ mit' = MarkStale(o, wk.index)
   /\ UNCHANGED cit /\ ok' = TRUE
   /\ Record([Ev("sort", o) EXCEPT !.x = IF rev THEN 1 ELSE 0])
@@ -230,9 +238,14 @@ SliceOf(a, b) ==
 (* s := v.Slice(a, b), the parent stays alive *)
 Slice2(a, b) ==
   /\ "slice" \in Ops /\ MaxObj = 2 /\ Alive(1) /\ a \in 0..n[1] /\ b \in a..n[1]
-  /\ LET s == SliceOf(a, b) IN
+  /\ LET s == SliceOf(a, b)
+         W == {k \in Idx(n[1]) : a <= k /\ k < b}
+     IN
        /\ n' = [n EXCEPT ![2] = b - a]
        /\ content' = [content EXCEPT ![2] = CSlice(content[1], a, b)]
+       /\ must' = {<<k, k - a>> : k \in {kk \in W : content[1][kk] # 0}}
+       /\ taint' = [o \in Objs |-> IF o = 1 THEN {k \in W : content[1][k] = 0}
+                                   ELSE {k - a : k \in {kk \in W : content[1][kk] = 0}}]
        /\ vals' = [vals EXCEPT ![2] = s.vals]
        /\ index' = [index EXCEPT ![2] = s.index]
        /\ sh' = s.sh
@@ -242,8 +255,7 @@ Slice2(a, b) ==
 Slice1(a, b) ==
   /\ "slice" \in Ops /\ MaxObj = 1 /\ Alive(1) /\ a \in 0..n[1] /\ b \in a..n[1]
   /\ LET s == SliceOf(a, b) IN
-       /\ n' = [n EXCEPT ![1] = b - a]
-       /\ content' = [content EXCEPT ![1] = CSlice(content[1], a, b)]
+       /\ ReplaceStepC(Objs, 1, b - a, CSlice(content[1], a, b))
        /\ vals' = [vals EXCEPT ![1] = s.vals]
        /\ index' = [index EXCEPT ![1] = s.index]
        /\ sh' = {}
@@ -254,6 +266,7 @@ Promote ==
   /\ "slice" \in Ops /\ MaxObj = 2 /\ Alive(2)
   /\ n' = [o \in Objs |-> IF o = 1 THEN n[2] ELSE -1]
   /\ content' = [o \in Objs |-> IF o = 1 THEN content[2] ELSE <<>>]
+  /\ must' = {} /\ taint' = [o \in Objs |-> {}]
   /\ vals' = [o \in Objs |-> IF o = 1 THEN vals[2] ELSE <<>>]
   /\ index' = [o \in Objs |-> IF o = 1 THEN index[2] ELSE {}]
   /\ sh' = {}
@@ -265,7 +278,7 @@ Promote ==
 (* v = v.AppendScalar(x): Clone (cells copied, index tree copied as it is) + one more entry *)
 AppendScalar(x) ==
   /\ "append" \in Ops /\ Alive(1) /\ n[1] < MaxN /\ ~HasNil(vals[1])
-  /\ Step(1, n[1] + 1, CAppend(content[1], n[1], <<x>>), Put(vals[1], n[1], x), index[1] \cup {n[1]}, {})
+  /\ ReplaceStep(1, n[1] + 1, CAppend(content[1], n[1], <<x>>), Put(vals[1], n[1], x), index[1] \cup {n[1]})
   /\ cit' = KillIters(cit, {1}) /\ mit' = KillMits(mit, {1}) /\ ok' = TRUE
   /\ Record([Ev("appends", 1) EXCEPT !.x = x])
 (* v = v.AppendVector(w), w a fresh sparse vector of the same type: only w's non-null entries arrive *)
@@ -274,10 +287,19 @@ AppendVector(w) ==
   /\ LET m  == n[1]
          K  == {m + t - 1 : t \in {tt \in 1..Len(w) : w[tt] # 0}}
          nv == [k \in DOMAIN vals[1] \cup K |-> IF k \in K THEN w[k - m + 1] ELSE vals[1][k]]
-     IN Step(1, m + Len(w), CAppend(content[1], m, w), nv, index[1] \cup K, {})
+     IN ReplaceStep(1, m + Len(w), CAppend(content[1], m, w), nv, index[1] \cup K)
   /\ cit' = KillIters(cit, {1}) /\ mit' = KillMits(mit, {1}) /\ ok' = TRUE
   /\ Record([Ev("appendv", 1) EXCEPT !.w = w])
 
+(* KNOWN DEVIATION (another property's finding, kept out of the model proper): when the operand is a DENSE *)
+(* vector the generic joint iterator reports Ok() = false at the first position where receiver and operand *)
+(* are both zero, so the loop stops there and the remaining positions keep their old values.  The replay   *)
+(* with dense operands accepts exactly this content (field d) as the known finding, anything else is a      *)
+(* violation.                                                                                              *)
+KnownDeviation_DenseOperandStop(name, c, w, m) ==
+  LET Z == {i \in Idx(m) : c[i] = 0 /\ w[i] = 0}
+      stop == IF Z = {} THEN m ELSE Min(Z)
+  IN [i \in Idx(m) |-> IF i < stop THEN AOp(name, c[i], w[i]) ELSE c[i]]
 (* element-wise arithmetic, receiver = first operand.  Joint iterators walk the receiver completely  *)
 (* (deleting null entries on the way) merged with the operand's non-zero positions; AT creates what  *)
 (* is missing; VmulV / VmulS `continue` where the receiver has no entry; V{add,sub}S touch every i.   *)
@@ -296,28 +318,19 @@ Arith(name, o, wseq, x) ==
                ELSE wk.index \cup (T \ DOMAIN wk.vals)
          S  == IF name \in {"vadds", "vsubs"} THEN sh ELSE Prune(sh, o, DOMAIN wk.vals)
      IN /\ \A i \in Idx(m) : nc[i] \in Val
-        /\ Step(o, m, nc, nv, ni, S)
+        /\ ValueStep(o, nc, nv, ni, S)
   /\ UNCHANGED <<cit, mit>> /\ ok' = TRUE
   /\ Record([Ev(name, o) EXCEPT !.w = IF name \in VecOps THEN wseq ELSE <<>>, !.x = x,
                                 !.d = IF name \in VecOps
                                       THEN SeqOf(KnownDeviation_DenseOperandStop(name, content[o], FunOf(wseq), n[o]), n[o])
                                       ELSE <<>>])
-(* KNOWN DEVIATION (another property's finding, kept out of the model proper): when the operand is a DENSE *)
-(* vector the generic joint iterator reports Ok() = false at the first position where receiver and operand *)
-(* are both zero, so the loop stops there and the remaining positions keep their old values.  The replay   *)
-(* with dense operands accepts exactly this content (field d) as the known finding, anything else is a      *)
-(* violation.                                                                                              *)
-KnownDeviation_DenseOperandStop(name, c, w, m) ==
-  LET Z == {i \in Idx(m) : c[i] = 0 /\ w[i] = 0}
-      stop == IF Z = {} THEN m ELSE Min(Z)
-  IN [i \in Idx(m) |-> IF i < stop THEN AOp(name, c[i], w[i]) ELSE c[i]]
 WSeqs(m) == {w \in [1..m -> Val] : Cardinality({t \in 1..m : w[t] # 0}) <= WMax}
 
 (* it := v.ConstIterator() / v.Iterator() / v.ConstIteratorFrom(i) *)
 IterFrom(j, o, from, name) ==
   /\ name \in Ops /\ Alive(o) /\ from \in Idx(n[o]) \cup {0}
   /\ LET s == Skip(vals[o], index[o], NoSnap, MinGE(index[o], from)) IN
-       /\ Step(o, n[o], content[o], s.vals, s.index, Prune(sh, o, DOMAIN s.vals))
+       /\ ObsStep(o, s.vals, s.index, Prune(sh, o, DOMAIN s.vals))
        /\ mit' = [mit EXCEPT ![j] = [live |-> TRUE, o |-> o, pos |-> s.pos, stale |-> FALSE, keys |-> {}]]
   /\ CIterNew(j, o, from) /\ ok' = TRUE
   /\ Record([Ev(name, o) EXCEPT !.j = j, !.i = from, !.r = <<<<cit'[j].pos>>>>])
@@ -327,7 +340,7 @@ IterNext(j) ==
   /\ LET o  == mit[j].o
          sn == [stale |-> mit[j].stale, keys |-> mit[j].keys]
          s  == Skip(vals[o], index[o], sn, MinGT(IF sn.stale THEN sn.keys ELSE index[o], mit[j].pos))
-     IN /\ Step(o, n[o], content[o], s.vals, s.index, Prune(sh, o, DOMAIN s.vals))
+     IN /\ ObsStep(o, s.vals, s.index, Prune(sh, o, DOMAIN s.vals))
         /\ mit' = [mit EXCEPT ![j].pos = s.pos]
   /\ CIterAdvance(j) /\ ok' = TRUE
   /\ Record([Ev("next", mit[j].o) EXCEPT !.j = j, !.r = <<<<cit'[j].pos>>>>])
@@ -336,7 +349,7 @@ IterNext(j) ==
 WalkAll(o) ==
   /\ "walk" \in Ops /\ Alive(o)
   /\ LET wk == FullWalk(vals[o], index[o]) IN
-       /\ Step(o, n[o], content[o], wk.vals, wk.index, Prune(sh, o, DOMAIN wk.vals))
+       /\ ObsStep(o, wk.vals, wk.index, Prune(sh, o, DOMAIN wk.vals))
        /\ ok' = (wk.seq = CWalk(content[o]))
   /\ UNCHANGED <<cit, mit>>
   /\ Record([Ev("walk", o) EXCEPT !.r = CWalk(content[o])])
@@ -347,7 +360,7 @@ JointWalk(o, wseq) ==
          wk == FullWalk(vals[o], index[o])
          a  == Asc(KeysOfSeq(wk.seq) \cup NZ(w))
          got == IF a = <<>> THEN <<>> ELSE [t \in 1..Len(a) |-> <<a[t], Rd(wk.vals, a[t]), w[a[t]]>>]
-     IN /\ Step(o, n[o], content[o], wk.vals, wk.index, Prune(sh, o, DOMAIN wk.vals))
+     IN /\ ObsStep(o, wk.vals, wk.index, Prune(sh, o, DOMAIN wk.vals))
         /\ ok' = (got = CJointWalk(content[o], w))
   /\ UNCHANGED <<cit, mit>>
   /\ Record([Ev("jwalk", o) EXCEPT !.w = wseq, !.r = CJointWalk(content[o], FunOf(wseq))])
@@ -390,11 +403,16 @@ IterRefines == \A j \in Iters : /\ mit[j].live = cit[j].live
 LiveIndexed == \A o \in Objs : \A k \in DOMAIN vals[o] : vals[o][k] \notin {0, NilPtr} => k \in index[o]
 InRange  == \A o \in Objs : IF Alive(o) THEN DOMAIN vals[o] \subseteq Idx(n[o]) /\ index[o] \subseteq Idx(n[o])
                             ELSE vals[o] = <<>> /\ index[o] = {}
-ShareOK  == \A pr \in sh : /\ MaxObj = 2 /\ Alive(1) /\ Alive(2)
-                           /\ pr[1] \in DOMAIN vals[1] /\ pr[2] \in DOMAIN vals[2]
-                           /\ vals[1][pr[1]] = vals[2][pr[2]]
-                           /\ content[1][pr[1]] = content[2][pr[2]]
-                           /\ \A pr2 \in sh : (pr2[1] = pr[1]) = (pr2[2] = pr[2])
+(* the cells really shared: all the contract's must-pairs, beyond them only tainted zero positions *)
+ShareOK  == /\ must \subseteq sh
+            /\ \A pr \in sh : /\ MaxObj = 2 /\ Alive(1) /\ Alive(2)
+                              /\ pr[1] \in DOMAIN vals[1] /\ pr[2] \in DOMAIN vals[2]
+                              /\ vals[1][pr[1]] = vals[2][pr[2]]
+                              /\ content[1][pr[1]] = content[2][pr[2]]
+                              /\ \A pr2 \in sh : (pr2[1] = pr[1]) = (pr2[2] = pr[2])
+                              /\ (pr \notin must => pr[1] \in taint[1] /\ pr[2] \in taint[2])
+            /\ \A pr \in must : content[1][pr[1]] # 0
+            /\ \A o \in Objs : \A i \in taint[o] : Alive(o) /\ i \in Idx(n[o]) /\ content[o][i] = 0
 ResultOK == ok
 
 (* ---------------------------------------------------- action properties *)
@@ -402,11 +420,4 @@ LastEv == hist'[Len(hist')]
 Replacing == {"appends", "appendv", "slice", "promote"}
 (* the length changes only through Append (Slice creates a new vector) *)
 DimFrame == [][\A o \in Objs : n'[o] = n[o] \/ LastEv.a \in Replacing]_vars
-(* a scalar holding a non-zero value stays shared between a vector and its slice *)
-KeepShared == [][LastEv.a \notin Replacing =>
-                   \A pr \in sh : content[1][pr[1]] # 0 =>
-                       \E pr2 \in sh' : pr2[3 - LastEv.o] = pr[3 - LastEv.o]]_vars
-(* only Slice makes two positions share a scalar *)
-NoNewShare == [][LastEv.a \notin Replacing =>
-                   \A pr2 \in sh' : \E pr \in sh : pr2[3 - LastEv.o] = pr[3 - LastEv.o]]_vars
 =============================================================================
